@@ -30,7 +30,7 @@ func (c *ctx) specialSection() {
 	root := bt.root
 	key := bitsToFelt(spec.KVs[1].K)
 	hf := crypto.Pedersen
-	short := []time.Duration{15 * time.Second, 45 * time.Second}
+	short := []time.Duration{10 * time.Second, 30 * time.Second}
 	run := func(sig, what string, deadlines []time.Duration, call func() (felt.Felt, error)) {
 		ans := realVerifyWith(deadlines, call)
 		res.Case("special/"+sig, true)
